@@ -15,8 +15,12 @@
 (*   Layer P  FinalTxValidExact (SlateAlgebra!FinalTxBroken on the         *)
 (*            observed transaction), TamperRefused (the ALGEBRA's verdict  *)
 (*            for the case, recomputed here, against the observed result), *)
-(*            StillCancellable - a failure prints VIOL: this, and only     *)
-(*            this, is a verdict; and                                      *)
+(*            StillCancellable (by slate id) after the last delivery; when *)
+(*            the case re-delivered the GENUINE reply after the refusal    *)
+(*            (o2): the same monitors on that second delivery ("Retry."),  *)
+(*            FinalTxValidExact including "what the wallet holds Locked    *)
+(*            for the slate = the inputs spent, one live TxSent entry"     *)
+(*            - a failure prints VIOL: this, and only this, is a verdict;  *)
 (*   Layer M  the observed result class is the one the transcription       *)
 (*            SlateAlgebra!Finalize predicts and the realised deal has the *)
 (*            shape the case asked for - a mismatch prints NONCONF only.   *)
@@ -41,6 +45,10 @@ NonConf(e, what, info) ==
 
 IsOk(res) == res = "ok"
 
+Retried(e) == "o2" \in DOMAIN e
+\* the last delivery of the case: cancellation is judged after it
+LastO(e) == IF Retried(e) THEN e.o2 ELSE e.o
+
 LayerP(e, c) ==
   LET o == e.o
       v == Verdict(c) IN
@@ -49,9 +57,16 @@ LayerP(e, c) ==
      ELSE TRUE
   /\ IF TamperRefusedBroken(v, IF IsOk(o.res) THEN "ok" ELSE "err")
      THEN Viol(e, "TamperRefused", [verdict |-> v, res |-> o.res]) ELSE TRUE
-  /\ IF StillCancellableBroken(o)
-     THEN Viol(e, "StillCancellable", [res |-> o.res, cancel |-> o.cancel, pending_after |-> o.pending_after,
-                                        before |-> o.before, after |-> o.after]) ELSE TRUE
+  \* second delivery: the reply the counterparty really sent, after the altered one was refused
+  /\ IF Retried(e) /\ IsOk(e.o2.res)
+     THEN \A m \in FinalTxBroken(e.o2) : Viol(e, "Retry.FinalTxValidExact." \o m, [tx |-> e.o2.tx, deal |-> e.o2.deal, resv |-> e.o2.resv])
+     ELSE TRUE
+  /\ IF Retried(e) /\ TamperRefusedBroken(Verdict2(c), IF IsOk(e.o2.res) THEN "ok" ELSE "err")
+     THEN Viol(e, "Retry.TamperRefused", [verdict |-> Verdict2(c), res |-> e.o2.res]) ELSE TRUE
+  /\ IF StillCancellableBroken(LastO(e))
+     THEN Viol(e, IF Retried(e) THEN "Retry.StillCancellable" ELSE "StillCancellable",
+               [res |-> LastO(e).res, by |-> e.cancel_by, cancel |-> LastO(e).cancel, pending_after |-> LastO(e).pending_after,
+                before |-> LastO(e).before, after |-> LastO(e).after]) ELSE TRUE
 
 LayerM(e, c) ==
   IF ~CheckM THEN TRUE
@@ -61,6 +76,11 @@ LayerM(e, c) ==
        /\ IF o.res = "panic" THEN NonConf(e, "panic", [detail |-> o.detail]) ELSE TRUE
        /\ IF (p.res = "ok") = IsOk(o.res) /\ (p.res = "err" /\ want # "*" => o.res = want) THEN TRUE
           ELSE NonConf(e, "Predict", [exp |-> p, obs |-> o.res, detail |-> o.detail])
+       \* the second delivery is predicted from what the transcription says the first one left behind
+       /\ IF ~Retried(e) THEN TRUE
+          ELSE LET p2 == Predict2(c) IN
+               IF (p2.res = "ok") = IsOk(e.o2.res) /\ (p2.res = "err" /\ ErrClass(p2.why) # "*" => e.o2.res = ErrClass(p2.why)) THEN TRUE
+               ELSE NonConf(e, "Predict2", [exp |-> p2, obs |-> e.o2.res, detail |-> e.o2.detail])
        \* the realised deal has the requested shape (selection is C01's business; here it only binds the case)
        /\ IF o.deal.known /\ (Len(o.deal.ins) # c.nin \/ Len(o.deal.chg) # c.nch)
           THEN NonConf(e, "shape", [nin |-> Len(o.deal.ins), nch |-> Len(o.deal.chg)]) ELSE TRUE
